@@ -322,8 +322,8 @@ func (c *c19Case) Run(ctx *core.Ctx) {
 }
 
 var (
-	c19AttrVals = []string{`"a"`, `"a b"`, `'say "hi"'`, `"it's"`, `"a &amp; b"`, `"a &lt; b"`, `"x < y && z"`, "\"multi\nline\"", `""`, `"{{ a < b }}"`, `'{"k": "v"}'`, `"&amp;lt;"`, `" padded "`}
-	c19Texts    = []string{"t", "a &amp; b", "{{ a < b && c > d }}", "x {{ y }} z", "&lt;b&gt;", "two  spaces", "a {{ '<' }} b", "&amp;amp;"}
+	c19AttrVals = []string{`"a"`, `"a b"`, `'say "hi"'`, `"it's"`, `"a &amp; b"`, `"a &lt; b"`, `"x < y && z"`, "\"multi\nline\"", `""`, `"{{ a < b }}"`, `'{"k": "v"}'`, `"&amp;lt;"`, `" padded "`, `"&amp;#39;x"`, `"&amp;#x27;"`, `"a&amp;b=c&amp;d_e"`, `"&amp;&amp;amp;"`, `"&#38;copy;"`}
+	c19Texts    = []string{"t", "&amp;#39;", "a &amp; b", "{{ a < b && c > d }}", "x {{ y }} z", "&lt;b&gt;", "two  spaces", "a {{ '<' }} b", "&amp;amp;"}
 )
 
 func c19Generate(tier string, emit func(src string)) {
